@@ -13,7 +13,7 @@
 *)
 From Coq Require Import ZArith QArith List Bool.
 From Verif.Lib Require Import QRound PyNum.
-From Verif.Model Require Import Result Credit Pipeline PipelineAgree.
+From Verif.Model Require Import Result Credit Pipeline PipelineTables.
 From Verif.Gen Require PipelineLits.
 From Verif.Bridge Require Import Pipeline.
 From Verif.Proofs Require Import Credit Pipeline PipelineWF PipelineShape PipelineFuel PipelineEx PipelineGen.
